@@ -64,6 +64,8 @@ func runC07(c *Ctx) {
 		return
 	}
 	c.Analysed(fnName(subscribe))
+	c.Rule("C07.walk-locks", "package cache: Cache.targets only under Cache.mu; no re-entrant acquisition of Cache.mu - 'everything for authorised targets is still delivered': an all-targets walk that re-acquires Cache.mu wedges behind a waiting writer and the authorised snapshot is never completed")
+	walkLocks(c, "C07.walk-locks")
 	c.Borrow("C08", map[string]string{"C08.timer": "C07.timer"}, "'everything for authorised targets is still delivered': a response the ACL filters out must leave the send timer disarmed, or the idle stream is ended by a timeout although nothing was being sent")
 	c.Rule("C07.unauth", "ACL configured and NewRPCACL fails => every path of Subscribe returns status Unauthenticated and performs no Recv, Send, go, registration or Insert; NewRPCACL succeeds => the ACL stored in the stream client is its result; no ACL configured => the stub")
 	c.Rule("C07.single", "target != \"*\" and Check(target) false => every path returns PermissionDenied with no go / registration / Send / Insert; every path that starts a goroutine for a single target contains an earlier Check of that target on the RPC's ACL")
